@@ -198,3 +198,27 @@ def set_result_error(vc):
     vc.check('post/completed-exactly-once', fut.ghost['completions'] == [('result', None)])
     vc.check('post/flag-stays-not-agreed', fut.attrs['is_schema_agreed'] is False)
     vc.check('post/refresh-rescheduled', len(world.submitted()) == 1)
+
+
+# "every known peer not marked down": agreement is asked of the hosts whose is_up is not False, so the verdict is only as good as that mark.  A DOWN signal that the
+# cluster discounts - some session still has open connections to the host, which therefore keeps serving requests with whatever schema it has - must leave the mark
+# alone; only a signal that is acted on marks the host down.  Contract on the real Cluster.on_down (its reconnection side is C25's).
+from contracts import c25_host_state as _C25
+
+
+@harness('C43', 'discounted-down-signal-leaves-the-host-live', functions=['cassandra.cluster.Cluster.on_down'], native='contracts.native.c43:replay_discounted')
+def discounted_down(vc):
+    """ensures with down events discounted: while any session has an open connection to the host, a DOWN signal changes nothing (host still marked up, nobody
+    notified, no reconnection series); when no session has one (no pool, or a pool with open_count 0) the host is marked down"""
+    from cassandra.cluster import Cluster
+    counts = vc.choice('open_connections_per_session', [(0, 0), (0, 2), (1, 0), (None, None), (None, 1)])
+    cl, host, sess, log = _C25._world(vc, sessions=('ok', 'ok'), is_up=True)
+    cl.attrs['_discount_down_events'] = True
+    for s, n in zip(sess, counts):
+        s.get_pool_state = (lambda n=n: {} if n is None else {host: {'open_count': n}})
+    vc.call(Cluster.__dict__['on_down'].__wrapped__, cl, host, False)
+    if any(n for n in counts if n):
+        vc.check('connected/host-still-marked-up', host.attrs['is_up'] is True)
+        vc.check('connected/nobody-told-nothing-started', not [e for e in log if e[0].endswith('on_down') or e[0] == 'schedule'])
+    else:
+        vc.check('not-connected/host-marked-down', host.attrs['is_up'] is False)
